@@ -136,7 +136,11 @@ impl OodFrame {
         let (trace_current_row, trace_next_row) = {
             let mut reader = SliceReader::new(&self.trace_states);
             let frame_size = reader.read_u8()? as usize;
-            assert_eq!(frame_size, 2);
+            if frame_size != 2 {
+                return Err(DeserializationError::InvalidValue(format!(
+                    "expected trace evaluation frame size to be 2, but was {frame_size}"
+                )));
+            }
             let mut trace = reader.read_many((main_trace_width + aux_trace_width) * frame_size)?;
 
             if reader.has_more_bytes() {
@@ -153,7 +157,11 @@ impl OodFrame {
         let (quotients_current_row, quotients_next_row) = {
             let mut reader = SliceReader::new(&self.quotient_states);
             let frame_size = reader.read_u8()? as usize;
-            assert_eq!(frame_size, 2);
+            if frame_size != 2 {
+                return Err(DeserializationError::InvalidValue(format!(
+                    "expected constraint evaluation frame size to be 2, but was {frame_size}"
+                )));
+            }
             let mut quotients_evaluations = reader.read_many(num_quotients * frame_size)?;
 
             if reader.has_more_bytes() {
